@@ -112,4 +112,54 @@ end composition
 example : (reach hasCF .async).any (fun s => s.pc == .returned .execCanceled) = true := by decide +kernel
 example : (reach hasCF .timeout).any (fun s => s.pc == .returned .timeoutRes && s.attempts == 2) = true := by decide +kernel
 
+/-! ## The waits of the admission policies (bulkhead permit, rate-limiter slot)
+
+A policy that waits does so in a `select` that also watches the execution's context (FACTS `selects/…`). What it returns when
+the wait ends because the execution was cancelled is decided by a shape taken from the source on every run
+(`bulkheadWaitReportsCancelResult`, `limiterWaitReportsLastError`): the executor hands back the execution's cancel result,
+not the bare context error of the wait. (D12: the bulkhead executor used to return the bare error, so that an async `Cancel`
+during the permit wait of an outermost bulkhead was reported as `context.Canceled`.) -/
+section waits
+open Failsafe Failsafe.Exec Failsafe.Classify
+
+/-- how the wait of an admission policy ends -/
+inductive WaitEnd | granted | refused | cancelled
+deriving DecidableEq, Repr
+
+/-- what the policy's executor returns when its wait has ended (`none`: it goes on to what it wraps). `reports`: the executor
+returns the execution's cancel result (shape input); `refusal`: ErrFull / ErrExceeded; `ctxErr`: the wait's own context error. -/
+def waitResult (reports : Bool) (refusal ctxErr : Err) (r : Run) : WaitEnd → Option PR
+  | .granted => none
+  | .refused => some (failureResult refusal)
+  | .cancelled => some (if reports then r.cancelRes else failureResult ctxErr)
+
+/-- **a wait ended by the cancellation reports the cause** (bulkhead): with the shape the source has, the result is the
+execution's cancel result — the external cause, or `timeout.ErrExceeded` when an enclosing Timeout fired — final and never a
+success, whatever the wait's own context error was -/
+theorem bulkhead_wait_reports_cause (refusal ctxErr : Err) (r : Run) :
+    waitResult Failsafe.Generated.Facts.bulkheadWaitReportsCancelResult refusal ctxErr r .cancelled = some r.cancelRes ∧
+    (r.cancelled = false → ∀ e, r.ext = some e → r.cancelRes = failureResult e) ∧ r.cancelRes.done = true ∧ r.cancelRes.success = false := by
+  have h := cancelRes_is_cause r
+  exact ⟨by simp [waitResult, Failsafe.Generated.Facts.bulkheadWaitReportsCancelResult], h.2.1, h.2.2.1, h.2.2.2.1⟩
+
+/-- the same for the rate limiter's wait inside an execution (it returns `exec.LastError()`, which `Cancel` stored) -/
+theorem limiter_wait_reports_cause (refusal ctxErr : Err) (r : Run) :
+    waitResult Failsafe.Generated.Facts.limiterWaitReportsLastError refusal ctxErr r .cancelled = some r.cancelRes := by
+  simp [waitResult, Failsafe.Generated.Facts.limiterWaitReportsLastError]
+
+/-- a refusal is reported as the refusal, and a granted wait goes on: the cancellation shape changes neither -/
+theorem wait_other_ends (reports : Bool) (refusal ctxErr : Err) (r : Run) :
+    waitResult reports refusal ctxErr r .refused = some (failureResult refusal) ∧ waitResult reports refusal ctxErr r .granted = none :=
+  ⟨rfl, rfl⟩
+
+/-- the defect that was repaired (D12), as a theorem about the *previous* shape: an executor that returns the wait's own error
+reports `context.Canceled` for an execution cancelled through its ExecutionResult -/
+theorem wait_misattribution_witness_previous_shape :
+    ∃ r : Run, r.ext = some Err.execCanceled ∧
+      waitResult false Err.full Err.canceled r .cancelled ≠ some r.cancelRes := by
+  refine ⟨{ w := {}, script := [], ext := some Err.execCanceled }, rfl, ?_⟩
+  decide
+
+end waits
+
 end Failsafe.Props.C08
